@@ -2152,4 +2152,502 @@ theorem minByScore_first {l : List PopEntry} {b : PopEntry} (h : minByScore l = 
       | succ j' => simp at hx; exact h3 j' x (by omega) hx
 
 
+
+/-! ## `SolverResult.sort_by` -/
+
+theorem Score.le_trans' {a b c : Score} (h1 : a.le b = true) (h2 : b.le c = true) : a.le c = true := by
+  cases a <;> cases b <;> cases c <;> simp_all [Score.le, Score.lt]
+  grind
+
+theorem Score.le_total' (a b : Score) : (a.le b || b.le a) = true := by
+  cases a <;> cases b <;> simp [Score.le, Score.lt]
+  grind
+
+/-- the sorted table has the same rows, is ordered by the column, and rows with `key a ≤ key b` keep their relative
+    order (stability; in particular ties are never swapped) -/
+theorem sortRowsBy_spec {α : Type} (key : α → Score) (rows : List α) :
+    (sortRowsBy key rows).Perm rows ∧
+    List.Pairwise (fun a b => (key a).le (key b) = true) (sortRowsBy key rows) ∧
+    ∀ a b, (key a).le (key b) = true → [a, b].Sublist rows → [a, b].Sublist (sortRowsBy key rows) := by
+  unfold sortRowsBy
+  have htr : ∀ a b c : α, (key a).le (key b) = true → (key b).le (key c) = true → (key a).le (key c) = true :=
+    fun a b c h1 h2 => Score.le_trans' h1 h2
+  have htot : ∀ a b : α, ((key a).le (key b) || (key b).le (key a)) = true := fun a b => Score.le_total' _ _
+  refine ⟨List.mergeSort_perm _ _, ?_, ?_⟩
+  · exact List.pairwise_mergeSort (le := fun a b => (key a).le (key b)) htr htot rows
+  · intro a b hab hsub
+    exact List.pair_sublist_mergeSort (le := fun a b => (key a).le (key b)) htr htot hab hsub
+
+/-! ## A hall of fame larger than the population -/
+section Fail
+variable {C D : Type}
+
+theorem hofRefs_insertPop_length (hof : List HofEntry) (i : Nat) (x : HofEntry) (hi : i ≤ hof.length) :
+    (hofRefs (insertPop hof i x)).length ≤ (hofRefs hof).length + 1 := by
+  unfold hofRefs insertPop
+  have hsub : (List.filterMap (·.circ) (hof.insertIdx i x).dropLast).Sublist
+      (List.filterMap (·.circ) (hof.insertIdx i x)) := List.Sublist.filterMap _ (List.dropLast_sublist _)
+  have hperm : (List.filterMap (·.circ) (hof.insertIdx i x)).Perm (List.filterMap (·.circ) (x :: hof)) :=
+    List.Perm.filterMap _ (List.perm_insertIdx x hof hi)
+  have h1 := hsub.length_le
+  have h2 := hperm.length_eq
+  have h3 : (List.filterMap (·.circ) (x :: hof)).length ≤ (List.filterMap (·.circ) hof).length + 1 := by
+    simp only [List.filterMap_cons]
+    split <;> simp
+  omega
+
+theorem updateHofOne_refs_length (t : Tol) (size : C → Nat) (n : Nat) {h h' : Heap C} {hof hof' : List HofEntry}
+    {e : PopEntry} (hres : updateHofOne t size n h hof e = .ok (h', hof')) :
+    (hofRefs hof').length ≤ (hofRefs hof).length + 1 := by
+  unfold updateHofOne at hres
+  split at hres
+  · simp at hres
+  · next c hc =>
+    split at hres
+    · simp at hres
+    · simp only [Except.ok.injEq, Prod.mk.injEq] at hres
+      obtain ⟨rfl, rfl⟩ := hres
+      omega
+    · next p hscan =>
+      split at hres
+      · simp at hres
+      · next h2 r' hcopy =>
+        simp only [Except.ok.injEq, Prod.mk.injEq] at hres
+        obtain ⟨rfl, rfl⟩ := hres
+        obtain ⟨_, _, ⟨ep, hep, _⟩, _⟩ := scanHof_some t size h hof e.score (size c) n 0 p hscan
+        have hplt : p < hof.length := (List.getElem?_eq_some_iff.mp hep).1
+        exact hofRefs_insertPop_length hof p _ (Nat.le_of_lt hplt)
+
+theorem updateHof_refs_length (t : Tol) (size : C → Nat) (n : Nat) :
+    ∀ (pop : List PopEntry) {h h' : Heap C} {hof hof' : List HofEntry},
+      updateHof t size n h hof pop = .ok (h', hof') → (hofRefs hof').length ≤ (hofRefs hof).length + pop.length := by
+  intro pop
+  induction pop with
+  | nil =>
+    intro h h' hof hof' hres
+    simp only [updateHof, Except.ok.injEq, Prod.mk.injEq] at hres
+    obtain ⟨rfl, rfl⟩ := hres
+    simp
+  | cons e rest ih =>
+    intro h h' hof hof' hres
+    simp only [updateHof] at hres
+    split at hres
+    · simp at hres
+    · next h1 hof1 hone =>
+      have a := updateHofOne_refs_length t size n hone
+      have b := ih hres
+      simp only [List.length_cons]
+      omega
+
+theorem mutatePhase_length (P : Params C D) (d : Nat → D) :
+    ∀ (fuel j : Nat) (h : Heap C) (pop : List PopEntry) {h' : Heap C} {pop' : List PopEntry},
+      mutatePhase P d j fuel h pop = .ok (h', pop') → pop'.length = pop.length := by
+  intro fuel
+  induction fuel with
+  | zero =>
+    intro j h pop h' pop' hres
+    simp only [mutatePhase, Except.ok.injEq, Prod.mk.injEq] at hres
+    obtain ⟨_, rfl⟩ := hres; rfl
+  | succ fuel ih =>
+    intro j h pop h' pop' hres
+    unfold mutatePhase at hres
+    split at hres
+    · simp at hres
+    · simp only at hres
+      split at hres
+      · simp at hres
+      · have := ih _ _ _ hres
+        rw [this, List.length_set]
+
+theorem exists_none_of_refs_lt (hof : List HofEntry) (h : (hofRefs hof).length < hof.length) :
+    hof.any (fun e => e.circ.isNone) = true := by
+  induction hof with
+  | nil => simp at h
+  | cons x rest ih =>
+    simp only [hofRefs, List.filterMap_cons, List.length_cons] at h
+    simp only [List.any_cons, Bool.or_eq_true]
+    cases hx : x.circ with
+    | none => left; simp
+    | some r =>
+      right
+      rw [hx] at h
+      simp only [List.length_cons] at h
+      exact ih (by unfold hofRefs; omega)
+
+/-- a hall of fame larger than the population: the first generation cannot finish (`update_logs` reads `.depth` of a
+    remaining `(inf, None)` entry, or an earlier step already failed) -/
+theorem generation_fails_of_hof_gt_pop (P : Params C D) (cfg : Cfg) (dr : Draws D) (g : Nat) (s : St C)
+    (hlen : s.hof.length = cfg.nHof) (hrefs : (hofRefs s.hof).length + s.pop.length < cfg.nHof) :
+    ∀ s', generation P cfg dr g s ≠ .ok s' := by
+  intro s' hres
+  unfold generation at hres
+  split at hres
+  · simp at hres
+  · next h1 pop1 hmut =>
+    split at hres
+    · simp at hres
+    · next h2 hof2 hupd =>
+      have l1 := mutatePhase_length P _ _ _ _ _ hmut
+      have l2 := updateHof_refs_length cfg.tol P.size cfg.nHof pop1 hupd
+      have l3 := (updateHof_length_mem cfg.tol P.size cfg.nHof pop1 hlen hupd).1
+      have hnone := exists_none_of_refs_lt hof2 (by omega)
+      simp only at hres
+      have hlogs : ∀ u, updateLogs pop1 hof2 ≠ .ok u := by
+        intro u hu
+        unfold updateLogs at hu
+        simp only [hnone, if_true] at hu
+        split at hu
+        · simp at hu
+        · split at hu <;> simp at hu
+      split at hres
+      · simp at hres
+      · next hok => exact hlogs () hok
+
+
+/-- **`n_hof > n_pop` never works** (as long as at least one generation is requested): `solve` raises — in the first
+    generation `update_logs` meets a remaining `(inf, None)` entry (or an earlier step failed).  Mirrors the behaviour
+    of the code; the harness compares error class and generation on such configurations. -/
+theorem solve_fails_of_hof_gt_pop (P : Params C D) (cfg : Cfg) (dr : Draws D) (tp : TransProbs) (init : List C)
+    (hlt : init.length < cfg.nHof) (hstop : 0 < cfg.nStop) : ∀ r, solve P cfg dr tp init ≠ .ok r := by
+  intro r hres
+  obtain ⟨s, res⟩ := r
+  obtain ⟨hg, _⟩ := solve_spec P cfg dr tp init hres
+  obtain ⟨k, hk⟩ : ∃ k, cfg.nStop = k + 1 := ⟨cfg.nStop - 1, by omega⟩
+  rw [hk] at hg
+  simp only [generations] at hg
+  split at hg
+  · simp at hg
+  · next s1 hs1 =>
+    refine generation_fails_of_hof_gt_pop P cfg dr 0 (initState cfg tp init) (by simp [initState]) ?_ s1 hs1
+    simp [initState, hofRefs]
+    exact hlt
+
+end Fail
+
+/-! ## Progress: well-formed configurations never raise -/
+section Progress
+variable {C D : Type}
+
+/-- entries without a circuit carry `np.inf` (true of every reachable hall of fame: `HofEntryHonest`) -/
+def NoneInf (hof : List HofEntry) : Prop := ∀ e ∈ hof, e.circ = none → e.score = Score.inf
+
+theorem isclose_fin_inf (t : Tol) (q : Rat) : (Score.fin q).isclose t Score.inf = false := rfl
+theorem lt_fin_inf (q : Rat) : (Score.fin q).lt Score.inf = true := rfl
+
+/-- with a finite score the scan never raises (entries without circuit are never isclose to it) -/
+theorem scanHof_ok (t : Tol) (size : C → Nat) (h : Heap C) (hof : List HofEntry) (q : Rat) (csize : Nat)
+    (hni : NoneInf hof) (hb : ∀ r ∈ hofRefs hof, r < h.size) :
+    ∀ (fuel i : Nat), i + fuel ≤ hof.length → ∃ r, scanHof t size h hof (Score.fin q) csize i fuel = .ok r := by
+  intro fuel
+  induction fuel with
+  | zero => intro i _; exact ⟨none, rfl⟩
+  | succ fuel ih =>
+    intro i hi
+    unfold scanHof
+    have hlt : i < hof.length := by omega
+    have he : hof[i]? = some hof[i] := List.getElem?_eq_getElem hlt
+    rw [he]
+    simp only
+    have hmem : hof[i] ∈ hof := List.mem_of_getElem? he
+    split
+    · next hclose =>
+      cases hc : (hof[i]).circ with
+      | none =>
+        have := hni _ hmem hc
+        rw [this] at hclose
+        simp [isclose_fin_inf] at hclose
+      | some r =>
+        simp only
+        have hr : r < h.size := hb r (List.mem_filterMap.mpr ⟨_, hmem, hc⟩)
+        obtain ⟨c, hcell⟩ := (Heap.get?_some_iff_lt h r).mpr hr
+        rw [hcell]
+        simp only
+        split
+        · exact ⟨_, rfl⟩
+        · exact ih (i + 1) (by omega)
+    · split
+      · exact ⟨_, rfl⟩
+      · exact ih (i + 1) (by omega)
+
+/-- the first `m` slots hold circuits -/
+def SomePrefix (hof : List HofEntry) (m : Nat) : Prop :=
+  ∀ i, i < m → ∃ (a : HofEntry) (r : Nat), hof[i]? = some a ∧ a.circ = some r
+
+theorem Passed.circ_some {t : Tol} {size : C → Nat} {h : Heap C} {q : Rat} {csize : Nat} {e : HofEntry}
+    (hp : Passed t size h (Score.fin q) csize e) (hni : e.circ = none → e.score = Score.inf) : ∃ r, e.circ = some r := by
+  rcases hp with ⟨_, r, _, hr, _⟩ | ⟨_, h2⟩
+  · exact ⟨r, hr⟩
+  · cases hc : e.circ with
+    | some r => exact ⟨r, rfl⟩
+    | none =>
+      rw [hni hc] at h2
+      simp [lt_fin_inf] at h2
+
+/-- processing a member with a finite score never raises, and fills one more slot while empty slots remain -/
+theorem updateHofOne_progress (t : Tol) (size : C → Nat) (n : Nat) {h : Heap C} {hof : List HofEntry} {e : PopEntry}
+    (hlen : hof.length = n) (hni : NoneInf hof) (hb : ∀ r ∈ hofRefs hof, r < h.size) (he : e.circ < h.size)
+    (q : Rat) (hq : e.score = Score.fin q) (m : Nat) (hsp : SomePrefix hof m) :
+    ∃ h' hof', updateHofOne t size n h hof e = .ok (h', hof') ∧ hof'.length = n ∧ NoneInf hof' ∧
+      (∀ r ∈ hofRefs hof', r < h'.size) ∧ h.size ≤ h'.size ∧ SomePrefix hof' (min n (m + 1)) := by
+  obtain ⟨c, hc⟩ := (Heap.get?_some_iff_lt h e.circ).mpr he
+  obtain ⟨r, hr⟩ := scanHof_ok t size h hof q (size c) hni hb n 0 (by omega)
+  unfold updateHofOne
+  rw [hc, hq]
+  simp only [hr]
+  cases r with
+  | none =>
+    refine ⟨h, hof, rfl, hlen, hni, hb, Nat.le_refl _, ?_⟩
+    intro i hi
+    have hin : i < n := by omega
+    obtain ⟨e', he', hp⟩ := scanHof_none t size h hof (Score.fin q) (size c) n 0 hr i (Nat.zero_le _) (by omega)
+    obtain ⟨r', hr'⟩ := hp.circ_some (hni e' (List.mem_of_getElem? he'))
+    exact ⟨e', r', he', hr'⟩
+  | some p =>
+    simp only
+    obtain ⟨_, _, ⟨ep, hep, _⟩, hpassed⟩ := scanHof_some t size h hof (Score.fin q) (size c) n 0 p hr
+    have hplt : p < hof.length := (List.getElem?_eq_some_iff.mp hep).1
+    have hcopy : h.copy e.circ = .ok (⟨h.cells.push c⟩, h.cells.size) := by
+      unfold Heap.copy; rw [hc]
+    rw [hcopy]
+    simp only
+    refine ⟨_, _, rfl, ?_, ?_, ?_, ?_, ?_⟩
+    · rw [insertPop_length hof p _ hplt]; exact hlen
+    · intro x hx hxc
+      rcases mem_insertPop (Nat.le_of_lt hplt) hx with rfl | hmem
+      · simp at hxc
+      · exact hni x hmem hxc
+    · intro r' hr'
+      simp only [Heap.size, Array.size_push]
+      rcases hofRefs_insertPop_mem (Nat.le_of_lt hplt) hr' with hx | hmem
+      · simp at hx; omega
+      · have := hb r' hmem; simp only [Heap.size] at this; omega
+    · simp [Heap.size]
+    · intro i hi
+      have hin : i < n := by omega
+      rw [insertPop_getElem? hof p _ hplt]
+      by_cases h1 : i < p
+      · simp only [h1, if_true]
+        obtain ⟨e', he', hp⟩ := hpassed i (Nat.zero_le _) h1
+        obtain ⟨r', hr'⟩ := hp.circ_some (hni e' (List.mem_of_getElem? he'))
+        exact ⟨e', r', he', hr'⟩
+      · by_cases h2 : i = p
+        · subst h2
+          simp only [Nat.lt_irrefl, if_true, if_false]
+          exact ⟨⟨Score.fin q, some h.cells.size⟩, h.cells.size, rfl, rfl⟩
+        · have h3 : i < hof.length := by omega
+          simp only [h1, h2, h3, if_true, if_false]
+          exact hsp (i - 1) (by omega)
+
+theorem SomePrefix.mono {hof : List HofEntry} {m m' : Nat} (h : SomePrefix hof m) (hle : m' ≤ m) : SomePrefix hof m' :=
+  fun i hi => h i (by omega)
+
+/-- `update_hof` on a population of finite scores never raises and fills `min(n_hof, filled + len(population))` slots -/
+theorem updateHof_progress (t : Tol) (size : C → Nat) (n : Nat) :
+    ∀ (pop : List PopEntry) {h : Heap C} {hof : List HofEntry} (m : Nat),
+      hof.length = n → NoneInf hof → (∀ r ∈ hofRefs hof, r < h.size) → (∀ e ∈ pop, e.circ < h.size) →
+      (∀ e ∈ pop, ∃ q, e.score = Score.fin q) → SomePrefix hof m →
+      ∃ h' hof', updateHof t size n h hof pop = .ok (h', hof') ∧ SomePrefix hof' (min n (m + pop.length)) := by
+  intro pop
+  induction pop with
+  | nil =>
+    intro h hof m _ _ _ _ _ hsp
+    exact ⟨h, hof, rfl, hsp.mono (by simp; omega)⟩
+  | cons e rest ih =>
+    intro h hof m hlen hni hb hpb hfin hsp
+    obtain ⟨q, hq⟩ := hfin e List.mem_cons_self
+    obtain ⟨h1, hof1, hone, l1, ni1, b1, sz1, sp1⟩ :=
+      updateHofOne_progress t size n hlen hni hb (hpb e List.mem_cons_self) q hq m hsp
+    obtain ⟨h2, hof2, hres, sp2⟩ := ih (min n (m + 1)) l1 ni1 b1
+      (fun x hx => Nat.lt_of_lt_of_le (hpb x (List.mem_cons_of_mem _ hx)) sz1)
+      (fun x hx => hfin x (List.mem_cons_of_mem _ hx)) sp1
+    refine ⟨h2, hof2, ?_, sp2.mono ?_⟩
+    · simp only [updateHof, hone]; exact hres
+    · simp only [List.length_cons]; omega
+
+theorem mutatePhase_ok (P : Params C D) (d : Nat → D) :
+    ∀ (fuel j : Nat) (h : Heap C) (pop : List PopEntry), j + fuel ≤ pop.length → (∀ e ∈ pop, e.circ < h.size) →
+      ∃ h' pop', mutatePhase P d j fuel h pop = .ok (h', pop') := by
+  intro fuel
+  induction fuel with
+  | zero => intro j h pop _ _; exact ⟨h, pop, rfl⟩
+  | succ fuel ih =>
+    intro j h pop hlen hb
+    unfold mutatePhase
+    have hj : j < pop.length := by omega
+    have he : pop[j]? = some pop[j] := List.getElem?_eq_getElem hj
+    rw [he]
+    simp only
+    have hmem : pop[j] ∈ pop := List.mem_of_getElem? he
+    have hlt : (pop[j]).circ < (h.modify (pop[j]).circ fun c => P.mutate c (d j)).size := by
+      rw [Heap.modify_size]; exact hb _ hmem
+    obtain ⟨c, hc⟩ := (Heap.get?_some_iff_lt _ _).mpr hlt
+    rw [hc]
+    simp only
+    apply ih
+    · rw [List.length_set]; omega
+    · intro x hx
+      rw [Heap.modify_size]
+      rcases List.mem_or_eq_of_mem_set hx with hm | heq
+      · exact hb x hm
+      · rw [heq]; exact hb (pop[j]) hmem
+
+theorem choices_ok (pop : List PopEntry) : ∀ (is : List Nat), (∀ x ∈ is, x < pop.length) →
+    ∃ es, choices pop is = .ok es ∧ es.length = is.length := by
+  intro is
+  induction is with
+  | nil => intro _; exact ⟨[], rfl, rfl⟩
+  | cons i rest ih =>
+    intro hv
+    have hi : i < pop.length := hv i List.mem_cons_self
+    obtain ⟨es, hes, hl⟩ := ih (fun x hx => hv x (List.mem_cons_of_mem _ hx))
+    refine ⟨pop[i] :: es, ?_, by simp [hl]⟩
+    simp only [choices, List.getElem?_eq_getElem hi, hes]
+
+/-- valid tournament draws: non-empty index lists within the population -/
+def DrawsValid (nPop : Nat) (draws : Nat → List Nat) : Prop :=
+  ∀ i, i < nPop → draws i ≠ [] ∧ ∀ x ∈ draws i, x < nPop
+
+theorem tournamentLoop_ok (pop : List PopEntry) (draws : Nat → List Nat) (nPop : Nat) (hpl : pop.length = nPop)
+    (hd : DrawsValid nPop draws) :
+    ∀ (fuel i : Nat) (h : Heap C) (acc : List PopEntry), i + fuel ≤ nPop → (∀ e ∈ pop, e.circ < h.size) →
+      ∃ h' pop', tournamentLoop pop draws i fuel h acc = .ok (h', pop') := by
+  intro fuel
+  induction fuel with
+  | zero => intro i h acc _ _; exact ⟨h, acc, rfl⟩
+  | succ fuel ih =>
+    intro i h acc hi hb
+    unfold tournamentLoop
+    obtain ⟨hne, hv⟩ := hd i (by omega)
+    obtain ⟨es, hes, hl⟩ := choices_ok pop (draws i) (by rw [hpl]; exact hv)
+    rw [hes]
+    simp only
+    have hesne : es ≠ [] := by
+      intro h0; rw [h0] at hl; simp at hl; exact hne (List.eq_nil_of_length_eq_zero hl.symm)
+    obtain ⟨e0, rest, rfl⟩ := List.exists_cons_of_ne_nil hesne
+    simp only [minByScore]
+    have hbm : (rest.foldl (fun best x => if x.score.lt best.score then x else best) e0) ∈ pop := by
+      have := (minByScore_spec (l := e0 :: rest) rfl).1
+      exact (choices_spec pop _ hes).2 _ this
+    obtain ⟨c, hc⟩ := (Heap.get?_some_iff_lt h _).mpr (hb _ hbm)
+    have hcopy : h.copy (rest.foldl (fun best x => if x.score.lt best.score then x else best) e0).circ =
+        .ok (⟨h.cells.push c⟩, h.cells.size) := by
+      unfold Heap.copy; rw [hc]
+    rw [hcopy]
+    simp only
+    apply ih (i + 1) _ _ (by omega)
+    intro x hx
+    have := hb x hx
+    simp only [Heap.size, Array.size_push] at *
+    omega
+
+theorem SomePrefix.no_none {hof : List HofEntry} (h : SomePrefix hof hof.length) :
+    hof.any (fun e => e.circ.isNone) = false := by
+  rw [Bool.eq_false_iff]
+  intro hany
+  rw [List.any_eq_true] at hany
+  obtain ⟨x, hx, hn⟩ := hany
+  obtain ⟨i, hi⟩ := List.mem_iff_getElem?.mp hx
+  have hlt : i < hof.length := (List.getElem?_eq_some_iff.mp hi).1
+  obtain ⟨a, r, ha, hr⟩ := h i hlt
+  rw [hi] at ha
+  have : a = x := by simpa using ha.symm
+  subst this
+  rw [hr] at hn; simp at hn
+
+/-- the metric never returns `np.inf` -/
+def FiniteMetric (P : Params C D) : Prop := ∀ c, ∃ q, P.metric c = Score.fin q
+
+/-- **Progress.**  From a state satisfying the invariant, with `0 < n_hof ≤ n_pop`, a finite metric and (if selection
+    is active with `k > 0`) valid tournament draws, a generation returns — and fills the hall of fame completely. -/
+theorem generation_progress (P : Params C D) (cfg : Cfg) (dr : Draws D) (g : Nat) (s : St C) (hinv : Inv P cfg s)
+    (hfin : FiniteMetric P) (hn : 0 < cfg.nHof) (hle : cfg.nHof ≤ cfg.nPop)
+    (hd : cfg.selectionActive = true → cfg.tournamentK ≠ 0 → DrawsValid cfg.nPop (dr.tournament g)) :
+    ∃ s', generation P cfg dr g s = .ok s' ∧ SomePrefix s'.hof cfg.nHof := by
+  obtain ⟨h1, pop1, hmut⟩ := mutatePhase_ok P (dr.mutation g) cfg.nPop 0 s.heap s.pop
+    (by rw [hinv.popLen]; omega) hinv.popBound
+  obtain ⟨m1, m2, m3, _, m5⟩ := mutatePhase_spec P (dr.mutation g) cfg.nPop 0 s.heap s.pop
+    (by rw [hinv.popLen]; omega) hinv.popNodup hinv.popBound hmut
+  have hpop1len : pop1.length = cfg.nPop := by rw [← popRefs_length, m1, popRefs_length, hinv.popLen]
+  have hhon : ∀ e ∈ pop1, PopHonest P h1 e := by
+    intro e he
+    obtain ⟨i, hi⟩ := List.mem_iff_getElem?.mp he
+    exact m5 i e (Nat.zero_le _) hi
+  have hpb : ∀ e ∈ pop1, e.circ < h1.size := by
+    intro e he
+    obtain ⟨c, hc, _⟩ := hhon e he
+    exact (Heap.get?_some_iff_lt h1 e.circ).mp ⟨c, hc⟩
+  have hfinp : ∀ e ∈ pop1, ∃ q, e.score = Score.fin q := by
+    intro e he
+    obtain ⟨c, _, hs⟩ := hhon e he
+    obtain ⟨q, hq⟩ := hfin c
+    exact ⟨q, by rw [hs, hq]⟩
+  have hni : NoneInf s.hof := by
+    intro e he hc
+    have := hinv.hof.honest e he
+    unfold HofEntryHonest at this
+    rw [hc] at this; exact this
+  have hb1 : ∀ r ∈ hofRefs s.hof, r < h1.size := by
+    intro r hr; rw [m2]; exact hinv.hof.bound r hr
+  obtain ⟨h2, hof2, hupd, hsp⟩ := updateHof_progress cfg.tol P.size cfg.nHof pop1 0 hinv.hofLen hni hb1 hpb hfinp
+    (fun i hi => by omega)
+  have hlen2 := (updateHof_length_mem cfg.tol P.size cfg.nHof pop1 hinv.hofLen hupd).1
+  have hsp' : SomePrefix hof2 cfg.nHof := hsp.mono (by rw [hpop1len]; omega)
+  have hnone : hof2.any (fun e => e.circ.isNone) = false := by
+    apply SomePrefix.no_none; rw [hlen2]; exact hsp'
+  have hlogs : updateLogs pop1 hof2 = .ok () := by
+    unfold updateLogs
+    have e1 : pop1.isEmpty = false := by
+      cases pop1 with
+      | nil => simp at hpop1len; omega
+      | cons _ _ => rfl
+    have e2 : hof2.isEmpty = false := by
+      cases hof2 with
+      | nil => simp at hlen2; omega
+      | cons _ _ => rfl
+    simp [e1, e2, hnone]
+  unfold generation
+  rw [hmut]
+  simp only [hupd, hlogs]
+  by_cases hsel : cfg.selectionActive = true
+  · simp only [hsel, if_true]
+    unfold tournamentSelection
+    by_cases hk : cfg.tournamentK = 0
+    · simp only [hk, if_true]
+      exact ⟨_, rfl, hsp'⟩
+    · simp only [hk, if_false]
+      have hext := (updateHof_inv P cfg.tol cfg.nHof pop1
+        (HofInv.of_agree m2 (fun r hr => m3 r (by simpa using hinv.disjoint r hr)) hinv.hof) hinv.hofLen hhon hupd).2.1
+      obtain ⟨h3, pop3, ht⟩ := tournamentLoop_ok pop1 (dr.tournament g) cfg.nPop hpop1len (hd hsel hk) cfg.nPop 0 h2 []
+        (by omega) (fun e he => Nat.lt_of_lt_of_le (hpb e he) hext.1)
+      rw [ht]
+      exact ⟨_, rfl, hsp'⟩
+  · simp only [hsel]
+    exact ⟨_, rfl, hsp'⟩
+
+theorem generations_progress (P : Params C D) (cfg : Cfg) (dr : Draws D) (hfin : FiniteMetric P)
+    (hn : 0 < cfg.nHof) (hle : cfg.nHof ≤ cfg.nPop)
+    (hd : cfg.selectionActive = true → cfg.tournamentK ≠ 0 → ∀ g, DrawsValid cfg.nPop (dr.tournament g)) :
+    ∀ (fuel g : Nat) (s : St C), Inv P cfg s → ∃ s', generations P cfg dr g fuel s = .ok s' := by
+  intro fuel
+  induction fuel with
+  | zero => intro g s _; exact ⟨s, rfl⟩
+  | succ fuel ih =>
+    intro g s hinv
+    obtain ⟨s1, hs1, _⟩ := generation_progress P cfg dr g s hinv hfin hn hle (fun a b => hd a b g)
+    obtain ⟨s2, hs2⟩ := ih (g + 1) s1 (generation_inv P cfg dr g hinv hs1).1
+    exact ⟨s2, by simp only [generations, hs1]; exact hs2⟩
+
+/-- **`solve` returns** for every configuration with `0 < n_hof ≤ n_pop`, a finite metric and valid tournament draws -/
+theorem solve_returns (P : Params C D) (cfg : Cfg) (dr : Draws D) (tp : TransProbs) (init : List C)
+    (hlen : init.length = cfg.nPop) (hfin : FiniteMetric P) (hn : 0 < cfg.nHof) (hle : cfg.nHof ≤ cfg.nPop)
+    (hd : cfg.selectionActive = true → cfg.tournamentK ≠ 0 → ∀ g, DrawsValid cfg.nPop (dr.tournament g)) :
+    ∃ s res, solve P cfg dr tp init = .ok (s, res) := by
+  have hinv0 := initState_inv P cfg tp init hlen
+  obtain ⟨s, hs⟩ := generations_progress P cfg dr hfin hn hle hd cfg.nStop 0 _ hinv0
+  have hinv := generations_inv P cfg dr cfg.nStop 0 hinv0 hs
+  obtain ⟨res, hres⟩ := exists_head s.hof (by rw [hinv.hofLen]; exact hn)
+  exact ⟨s, res, by simp only [solve, hs, hres]⟩
+
+end Progress
+
 end Graphiq.Evo
